@@ -30,7 +30,7 @@ fn mk_data(bytes: &[u8; 16], n: usize, addr: usize) -> ObjectBinaryRepr {
         }
         i += 1;
     }
-    ObjectBinaryRepr { raw_data: Bytes::from(v), address: Some(addr), size: n }
+    ObjectBinaryRepr { raw_data: bytes::Bytes::from(v), address: Some(addr), size: n }
 }
 fn type_id() -> TypeId {
     DieAddr::Unit(gimli::UnitOffset(0x2a))
@@ -160,14 +160,17 @@ fn c06_scalar_decode_bool() {
 fn mk_data1(b: &[u8; 16]) -> ObjectBinaryRepr {
     let mut v = Vec::with_capacity(1);
     v.push(b[0]);
-    ObjectBinaryRepr { raw_data: Bytes::from(v), address: Some(0x1000), size: 1 }
+    ObjectBinaryRepr { raw_data: bytes::Bytes::from(v), address: Some(0x1000), size: 1 }
 }
 
 /// short data: the type needs $size bytes, $n were fetched
 macro_rules! short_read {
     ($p:expr, $b:expr, $n:literal, $enc:expr, $size:literal) => {{
         let ty = mk_type($enc, $size, None);
-        let v = $p.parse_scalar(Some(mk_data(&$b, $n, 0x1000)), type_id(), &ty);
+        // `size` is the size the type declares; `raw_data` holds what was actually fetched
+        let mut data = mk_data(&$b, $n, 0x1000);
+        data.size = $size;
+        let v = $p.parse_scalar(Some(data), type_id(), &ty);
         bsv!(($n >= $size) == v.value.is_some(), "a value is shown exactly when enough bytes were fetched for the type");
         std::mem::forget(v);
         std::mem::forget(ty);
